@@ -1,4 +1,5 @@
 import BHS.Props.C13
+import BHS.Props.SqlShape
 open BHS.Props.C13
 #print axioms C13_locator
 #print axioms C13_locator_heights
@@ -12,3 +13,4 @@ open BHS.Props.C13
 #print axioms C13_getheaders_cap
 #print axioms C13_empty_locator_counterexample
 #print axioms C13_stop_genesis_counterexample
+#print axioms BHS.Props.SqlShape.getheaders_statements
